@@ -18,7 +18,7 @@ COQ = os.path.join(VERIF, "coq")
 BUILD = os.path.join(VERIF, "build")
 KMODEL = os.path.join(BUILD, "kmodel")
 
-GOENV = dict(os.environ, GOFLAGS="-mod=mod", GOPROXY="off", GOSUMDB="off", GOTOOLCHAIN="local",
+GOENV = dict(os.environ, GOFLAGS="-mod=readonly", GOPROXY="off", GOSUMDB="off", GOTOOLCHAIN="local",
              CGO_ENABLED=os.environ.get("CGO_ENABLED", "0"))
 
 FORBIDDEN = re.compile(
